@@ -31,6 +31,7 @@ EXTRA_NAMES = [
     "n_nodes_per_face", "face_areas", "bounds", "edge_node_distances", "edge_face_distances", "face_jacobian",
     "Two", "inverse_indices", "fill_value_mask", "latitude_intervalsIndex", "latitude_intervals_name_map",
     "_FillValue", "start_index", "long name", "standard_name", "units",
+    "dtype", "missing_value", "scale_factor", "add_offset", "calendar", "zlib", "source", "chunksizes", "original_shape",
 ]
 
 
